@@ -12,7 +12,8 @@ What is modelled:
   mode: `\n` becomes `os.linesep`, then UTF-8 encoding (the locale encoding of
   `emit_c_code`'s `open` is assumed to be UTF-8);
 * `sys.stdout.write`: CPython creates `sys.stdout` with `newline="\n"`, so no
-  newline translation, then the (UTF-8) encoding.
+  newline translation, then the (UTF-8) encoding; the generator's own
+  `print("generating ...")` line goes to the same stream first (`deliver`).
 
 What is a parameter (the same function on both sides): the generator
 `gen name cdef prelude` = the text `FFI().cdef(cdef); set_source(name, prelude);
@@ -87,15 +88,16 @@ def decodeStep : Bytes → Option (Nat × Nat)
 /-- `bs.decode('utf-8')` (strict); `none` = `UnicodeDecodeError`.  The fuel is
 the number of bytes. -/
 def utf8DecodeAux : Nat → Bytes → Option Str
-  | _, [] => some []
-  | 0, _ :: _ => none
+  | 0, bs => if bs.isEmpty then some [] else none
   | fuel + 1, bs =>
-    match decodeStep bs with
-    | none => none
-    | some (c, k) =>
-      match utf8DecodeAux fuel (bs.drop k) with
-      | some s => some (c :: s)
+    if bs.isEmpty then some []
+    else
+      match decodeStep bs with
       | none => none
+      | some (c, k) =>
+        match utf8DecodeAux fuel (bs.drop k) with
+        | some s => some (c :: s)
+        | none => none
 
 def utf8Decode (bs : Bytes) : Option Str := utf8DecodeAux bs.length bs
 
@@ -144,21 +146,28 @@ inductive Output where
   | stdout
   deriving Repr, DecidableEq
 
-def write (linesep : Str) (o : Output) (text : Str) : Except Err Bytes :=
+/-- What arrives at the destination `OUTPUT` designates.  `emit_c_code` runs
+with `compiler_verbose=1`, so `_make_c_or_py_source` first executes
+`print("generating %s" % (target_file,))`; `banner` is that line (it contains
+the `repr` of a `StringIO`, i.e. a memory address, hence a parameter).  With a
+path the line goes to the terminal and the file holds the source only; with `-`
+the source is written to the very stream the line was printed to. -/
+def deliver (linesep : Str) (o : Output) (banner text : Str) : Except Err Bytes :=
   match o with
   | .file => writeFile linesep text
-  | .stdout => writeStdout text
+  | .stdout => writeStdout (banner ++ text)
 
 /-- `cffi-gen-src read-sources NAME CDEF CSRC OUTPUT`: the prelude is read
 first, then the cdef (order of `read_sources`) -/
 def cliReadSources (gen : Str → Str → Str → Except Err Str) (linesep : Str) (o : Output)
-    (name : Str) (cdefFile csrcFile : Bytes) : Except Err Bytes := do
+    (banner name : Str) (cdefFile csrcFile : Bytes) : Except Err Bytes := do
   let csrc ← readText csrcFile
   let cdef ← readText cdefFile
   let text ← gen name cdef csrc
-  write linesep o text
+  deliver linesep o banner text
 
-/-- `ffi = FFI(); ffi.cdef(cdef); ffi.set_source(name, prelude); ffi.emit_c_code(path)` -/
+/-- `ffi = FFI(); ffi.cdef(cdef); ffi.set_source(name, prelude); ffi.emit_c_code(path)`:
+the contents of `path` -/
 def apiEmit (gen : Str → Str → Str → Except Err Str) (linesep : Str)
     (name cdef csrc : Str) : Except Err Bytes := do
   let text ← gen name cdef csrc
@@ -166,10 +175,10 @@ def apiEmit (gen : Str → Str → Str → Except Err Str) (linesep : Str)
 
 /-- `cffi-gen-src exec-python [--ffi-var V] PYFILE OUTPUT` -/
 def cliExecPython (exec : Str → Str → Except Err Str) (linesep : Str) (o : Output)
-    (ffiVar : Str) (pyFile : Bytes) : Except Err Bytes := do
+    (banner ffiVar : Str) (pyFile : Bytes) : Except Err Bytes := do
   let src ← readText pyFile
   let text ← exec src ffiVar
-  write linesep o text
+  deliver linesep o banner text
 
 /-- executing the script text and calling `emit_c_code(path)` on what it binds -/
 def apiExec (exec : Str → Str → Except Err Str) (linesep : Str)
